@@ -77,9 +77,9 @@ class C11(Prop):
                     Layer("PDA D2/60 x FA P1", lambda: self.cases("pda", "D2", "P1", lstep=60), policies=two[:1])]
         three = two + ["2@int", "natural@mixed"]
         return [Layer("CFG G2 x FA P2 (every 2nd grammar)", lambda: self.cases("cfg", "G2", "P2", lstep=2), policies=two),
-                Layer("CFG G3 x FA P1", lambda: self.cases("cfg", "G3", "P1"), policies=three),
-                Layer("PDA D1 x FA P2", lambda: self.cases("pda", "D1", "P2"), policies=three),
-                Layer("PDA D2 x FA P1", lambda: self.cases("pda", "D2", "P1"), policies=two)]
+                Layer("CFG G3 x FA P1", lambda: self.cases("cfg", "G3", "P1"), policies=["natural@int", "natural@mixed"]),
+                Layer("PDA D1 x FA P2", lambda: self.cases("pda", "D1", "P2"), policies=["1@str", "natural@mixed"]),
+                Layer("PDA D2 x FA P1 (every 4th PDA)", lambda: self.cases("pda", "D2", "P1", lstep=4), policies=two)]
 
     # ---- resolution
     def left(self, case):
